@@ -184,9 +184,57 @@ def hang_check(ctx, res, what):
     return None
 
 
+def replay(ctx, exe):
+    """--replay: an ndjson trace (re-validated by TLC), a schedule {"label","backend","steps"...}
+    (re-executed under TSan), or {"cmd": "... d11|stress ..."} (re-executed)."""
+    txt = open(ctx.replay).read()
+    files = []
+    res = None
+    if txt.lstrip().startswith('{"k":'):
+        files = [ctx.replay]
+    else:
+        j = json.loads(txt)
+        if "steps" in j:
+            res = run_sched_batch(exe, ctx, [j], "replay")
+        else:
+            a = j.get("cmd", "").split()
+            i = [k for k, x in enumerate(a) if x in ("d11", "stress", "sched", "c07")]
+            if not i:
+                raise vlib.MachineryError("replay file has neither a trace, a schedule nor a harness command")
+            args = [x for x in a[i[0]:] if True]
+            # drop the bookkeeping options of the original run
+            clean = []
+            skip = False
+            for x in args:
+                if skip:
+                    skip = False
+                    continue
+                if x in ("--trace", "--tmp"):
+                    skip = True
+                    continue
+                clean.append(x)
+            res = thrlib.run_harness(exe, clean, os.path.join(ctx.out, "replay"), timeout=120, tsan=True)
+        files = [res["trace"]]
+        for r in thrlib.parse_tsan(res["stderr"]):
+            if not r["benign"]:
+                ctx.violation(r["sig"] + (".concurrent_reinit" if "reinit" in txt else ""), r["text"][:2500], replay_path=ctx.replay)
+    n, viols = thrlib.validate_traces(ctx, files, "replay")
+    ctx.cov["traces_validated_against_impl"] += n
+    ctx.cov["evaluations"] += n
+    for (rule, label, line, ctxt) in viols:
+        if rule.startswith("c07.outwait"):
+            continue
+        conc = ".concurrent_reinit" if (label.startswith("d11") or "reinit" in txt) else ""
+        ctx.violation("c11.trace.%s%s" % (rule, conc), "replay %s: rule %s at line %d\n%s" % (label, rule, line, ctxt),
+                      replay_path=ctx.replay)
+    ctx.sample({"replayed": os.path.basename(ctx.replay), "runs": n, "rules_broken": sorted({v[0] for v in viols})})
+
+
 # ------------------------------------------------------------------------- main
 def run(ctx):
     exe = ctx.build_harness("thr", flavor="tsan")
+    if ctx.replay:
+        return replay(ctx, exe)
     models(ctx)
     V = Verdicts(ctx, exe)
     all_runs = 0
